@@ -331,5 +331,7 @@ Proof. vm_compute. reflexivity. Qed.
    nqueryE ends with exactly XPy 7 *)
 Example C03_refines_native_nonvacuous :
   (forall ir dyn name k, orealizes ir dyn ex_ufix novar (ex_ufix name k) (option_map NE.erf (ex_efix name k)))
-  /\ refine_example_native = true.
-Proof. split; [exact ex_table_ok|vm_compute; reflexivity]. Qed.
+  /\ refine_example_native = true
+  /\ (forall ir dyn name k, orealizes ir dyn ex_ufix_at novar (ex_ufix_at name k) (ex_ffix_at name k))
+  /\ refine_example_raising = true.      (* pyq raises instead of its answer number 1: two answers, then the exception *)
+Proof. split; [exact ex_table_ok|split; [vm_compute; reflexivity|split; [exact ex_table_at_ok|vm_compute; reflexivity]]]. Qed.
